@@ -45,3 +45,8 @@ package logql_transpiler_v2
 //@   flag inline-only
 //@   loop 1:
 //@     modifies nothing
+
+// Same for the step re-sampling goroutine of matrix requests.
+//@ func (*MatrixStepPlanner).Process$1 [C12]
+//@   flag defers-first=shared.TamePanic
+//@   flag may-panic
